@@ -694,7 +694,7 @@ func (x *Exec) frameObligations(final, entry *State, c *Contract) {
 	sort.Strings(ks)
 	top0 := x.lookupHeap(entry, "top", "Int")
 	for _, k := range ks {
-		if k == "top" || strings.HasPrefix(k, "#") || k == "G:$now" || covered[k] {
+		if k == "top" || strings.HasPrefix(k, "#") || strings.HasPrefix(k, "G:$") || covered[k] {
 			continue
 		}
 		fv := final.heap[k]
